@@ -1,5 +1,14 @@
 import FxVerif.Model.C14
 import FxVerif.Proofs.C14
+import FxVerif.Proofs.C14Bank
+import FxVerif.Proofs.C14Queue
+import FxVerif.Proofs.C14Exec
+import FxVerif.Proofs.C14Sim
+import FxVerif.Proofs.C14SimInit
+import FxVerif.Proofs.C14Inv
+import FxVerif.Proofs.C14InvQ
+import FxVerif.Proofs.C14InvS
+import FxVerif.Proofs.C14InvI
 /-!
 # C14 — account migration moves everything, once, to the address that authorised it
 
@@ -17,7 +26,12 @@ walks both proposal queues completely, runs validate-all / execute-all / record 
 signer with the target, and rejects validator operators and targets with staking records -/
 theorem cfg_from_code :
     cfg = { rewriteDelIdx := true, rewriteUnbId := true, govScanAll := true, orderOk := true,
-            sigRequired := true, checkOperator := true, checkTarget := true } := by decide
+            sigRequired := true, checkOperator := true, checkTarget := true,
+            recKeyFrom := "GetMigratedRecordKey", recKeyTo := "GetMigratedRecordKey",
+            wRecFrom := true, wRecTo := true, wDirFrom := true, wDirTo := true, bankAll := true,
+            gProposerFrom := true, gProposerTo := true, gDepositFrom := true, gDepositTo := true,
+            gVoteDeposit := true, gVoteFrom := true, gVoteTo := true, qEveryEntry := true, qByDelegator := true } := by
+  decide
 
 /-- the bytes `ValidateBasic` hashes are prefix ++ source ++ target, in this order -/
 theorem signed_bytes_order (pfx : List Nat) (enc : Addr → List Nat) (frm to : Addr) :
@@ -28,14 +42,34 @@ theorem signed_bytes_order (pfx : List Nat) (enc : Addr → List Nat) (frm to : 
 
 /-- what `migrate` does once every check passed -/
 def moved (s : State) (frm to : Addr) : State :=
-  setRecord (stakingExecute cfg (bankExecute s frm to) frm to) frm to
+  setRecord cfg (stakingExecute cfg (bankExecute cfg s frm to) frm to) frm to
+
+theorem cfg_bankAll : cfg.bankAll = true := by rw [cfg_from_code]
+theorem cfg_queue : cfg.qEveryEntry = true ∧ cfg.qByDelegator = true := by rw [cfg_from_code]; exact ⟨rfl, rfl⟩
+
+/-- the already-migrated guards read from the code are `HasMigrateRecord` (the record key family, keyed by the raw
+address whatever its role was) for the source and for the target -/
+theorem recGuard_cfg (s : State) (a : Addr) :
+    recGuard cfg.recKeyFrom s a = (get s.recs a).isSome ∧ recGuard cfg.recKeyTo s a = (get s.recs a).isSome := by
+  rw [cfg_from_code]
+  exact ⟨by simp [recGuard], by simp [recGuard]⟩
+
+/-- `SetMigrateRecord` as read from the code: the record under both addresses, both direction flags -/
+theorem setRecord_cfg (s : State) (frm to : Addr) :
+    setRecord cfg s frm to = { s with recs := put (put s.recs frm (true, to)) to (false, frm),
+                                      dirFrom := ins s.dirFrom frm, dirTo := ins s.dirTo to } := by
+  unfold setRecord
+  rw [cfg_from_code]
+  rfl
 
 /-- inversion of an accepted migration: every check passed, and the state is the executed one -/
 theorem migrate_ok_inv {s s' : State} {frm to : Addr} {sigOk : Bool} (h : migrate cfg s frm to sigOk = .ok s') :
     frm ≠ to ∧ sigOk = true ∧ get s.recs frm = none ∧ get s.recs to = none ∧ s.hasKey.contains frm = true ∧
     stakingValidate cfg s frm to = none ∧ govRefuses cfg s frm to = false ∧ s' = moved s frm to := by
   unfold migrate at h
-  rw [cfg_from_code] at h
+  rw [(recGuard_cfg s frm).1, (recGuard_cfg s to).2] at h
+  have hsig : cfg.sigRequired = true := by rw [cfg_from_code]
+  rw [hsig] at h
   simp only [Bool.true_and] at h
   split at h
   · cases h
@@ -49,21 +83,30 @@ theorem migrate_ok_inv {s s' : State} {frm to : Addr} {sigOk : Bool} (h : migrat
         split at h
         · cases h
         · rename_i h4
-          rw [← cfg_from_code] at h
           split at h
           · cases h
           · rename_i h5
             split at h
             · cases h
             · rename_i h6
-              cases h
-              refine ⟨?_, ?_, ?_, ?_, ?_, h5, ?_, rfl⟩
-              · intro e; subst e; simp at h1
-              · simpa using h2
-              · cases hh : get s.recs frm <;> simp_all
-              · cases hh : get s.recs to <;> simp_all
-              · simpa using h4
-              · simpa using h6
+              split at h
+              · cases h
+              · cases h
+                refine ⟨?_, ?_, ?_, ?_, ?_, h5, ?_, rfl⟩
+                · intro e; subst e; simp at h1
+                · simpa using h2
+                · cases hh : get s.recs frm <;> simp_all
+                · cases hh : get s.recs to <;> simp_all
+                · simpa using h4
+                · simpa using h6
+
+/-- an accepted migration found no coin of the source that its single `SendCoins` could not move -/
+theorem migrate_ok_not_blocked {s s' : State} {frm to : Addr} {sigOk : Bool} (h : migrate cfg s frm to sigOk = .ok s') :
+    bankBlocked cfg s frm = false := by
+  unfold migrate at h
+  repeat (split at h; · cases h)
+  rename_i hb
+  simpa using hb
 
 /-- **needs_target_signature**: an accepted migration carries a signature from which the (opaque) recovery function,
 applied to the (opaque) hash of prefix ++ source ++ target, yields exactly the target address -/
@@ -120,27 +163,27 @@ theorem target_without_staking_records {s s' : State} {frm to : Addr} {sigOk : B
 /-! ## what `Execute` does to each store (component folds) -/
 
 theorem moveUbd_dels (c : Cfg) (frm to : Addr) (s : State) (p) : (moveUbd c frm to s p).dels = s.dels := by
-  unfold moveUbd; exact foldl_keep (fun s : State => s.dels) _ (by intros; rfl) _ _
+  unfold moveUbd; exact (foldl_keep (fun s : State => s.dels) _ (by intros; rfl) _ _).trans (foldl_keep (fun s : State => s.dels) _ (by intros; rfl) _ _)
 theorem moveRed_dels (c : Cfg) (frm to : Addr) (s : State) (p) : (moveRed c frm to s p).dels = s.dels := by
-  unfold moveRed; exact foldl_keep (fun s : State => s.dels) _ (by intros; rfl) _ _
+  unfold moveRed; exact (foldl_keep (fun s : State => s.dels) _ (by intros; rfl) _ _).trans (foldl_keep (fun s : State => s.dels) _ (by intros; rfl) _ _)
 theorem moveUbd_startInfo (c : Cfg) (frm to : Addr) (s : State) (p) : (moveUbd c frm to s p).startInfo = s.startInfo := by
-  unfold moveUbd; exact foldl_keep (fun s : State => s.startInfo) _ (by intros; rfl) _ _
+  unfold moveUbd; exact (foldl_keep (fun s : State => s.startInfo) _ (by intros; rfl) _ _).trans (foldl_keep (fun s : State => s.startInfo) _ (by intros; rfl) _ _)
 theorem moveRed_startInfo (c : Cfg) (frm to : Addr) (s : State) (p) : (moveRed c frm to s p).startInfo = s.startInfo := by
-  unfold moveRed; exact foldl_keep (fun s : State => s.startInfo) _ (by intros; rfl) _ _
+  unfold moveRed; exact (foldl_keep (fun s : State => s.startInfo) _ (by intros; rfl) _ _).trans (foldl_keep (fun s : State => s.startInfo) _ (by intros; rfl) _ _)
 theorem moveUbd_delIdx (c : Cfg) (frm to : Addr) (s : State) (p) : (moveUbd c frm to s p).delIdx = s.delIdx := by
-  unfold moveUbd; exact foldl_keep (fun s : State => s.delIdx) _ (by intros; rfl) _ _
+  unfold moveUbd; exact (foldl_keep (fun s : State => s.delIdx) _ (by intros; rfl) _ _).trans (foldl_keep (fun s : State => s.delIdx) _ (by intros; rfl) _ _)
 theorem moveRed_delIdx (c : Cfg) (frm to : Addr) (s : State) (p) : (moveRed c frm to s p).delIdx = s.delIdx := by
-  unfold moveRed; exact foldl_keep (fun s : State => s.delIdx) _ (by intros; rfl) _ _
+  unfold moveRed; exact (foldl_keep (fun s : State => s.delIdx) _ (by intros; rfl) _ _).trans (foldl_keep (fun s : State => s.delIdx) _ (by intros; rfl) _ _)
 theorem moveRed_ubds (c : Cfg) (frm to : Addr) (s : State) (p) : (moveRed c frm to s p).ubds = s.ubds := by
-  unfold moveRed; exact foldl_keep (fun s : State => s.ubds) _ (by intros; rfl) _ _
+  unfold moveRed; exact (foldl_keep (fun s : State => s.ubds) _ (by intros; rfl) _ _).trans (foldl_keep (fun s : State => s.ubds) _ (by intros; rfl) _ _)
 theorem moveRed_ubdIdx (c : Cfg) (frm to : Addr) (s : State) (p) : (moveRed c frm to s p).ubdIdx = s.ubdIdx := by
-  unfold moveRed; exact foldl_keep (fun s : State => s.ubdIdx) _ (by intros; rfl) _ _
+  unfold moveRed; exact (foldl_keep (fun s : State => s.ubdIdx) _ (by intros; rfl) _ _).trans (foldl_keep (fun s : State => s.ubdIdx) _ (by intros; rfl) _ _)
 theorem moveUbd_ubds (c : Cfg) (frm to : Addr) (s : State) (p) :
     (moveUbd c frm to s p).ubds = rekeyStep frm to s.ubds p := by
-  unfold moveUbd; exact foldl_keep (fun s : State => s.ubds) _ (by intros; rfl) _ _
+  unfold moveUbd; exact (foldl_keep (fun s : State => s.ubds) _ (by intros; rfl) _ _).trans (foldl_keep (fun s : State => s.ubds) _ (by intros; rfl) _ _)
 theorem moveUbd_ubdIdx (c : Cfg) (frm to : Addr) (s : State) (p) :
     (moveUbd c frm to s p).ubdIdx = ins (rem s.ubdIdx (p.1.2, frm)) (p.1.2, to) := by
-  unfold moveUbd; exact foldl_keep (fun s : State => s.ubdIdx) _ (by intros; rfl) _ _
+  unfold moveUbd; exact (foldl_keep (fun s : State => s.ubdIdx) _ (by intros; rfl) _ _).trans (foldl_keep (fun s : State => s.ubdIdx) _ (by intros; rfl) _ _)
 
 theorem exec_dels (c : Cfg) (s : State) (frm to : Addr) :
     (stakingExecute c s frm to).dels = (entriesOf s.dels frm).foldl (rekeyStep frm to) s.dels := by
@@ -242,7 +285,7 @@ theorem portfolio_moved_delegations {s s' : State} {frm to : Addr} {sigOk : Bool
     get s'.dels (d, v) = if d = to then get s.dels (frm, v) else if d = frm then none else get s.dels (d, v) := by
   obtain ⟨hne, _, _, _, _, _, _, rfl⟩ := migrate_ok_inv h
   have hto := (target_without_staking_records h).1
-  show get (stakingExecute cfg (bankExecute s frm to) frm to).dels (d, v) = _
+  show get (stakingExecute cfg (bankExecute cfg s frm to) frm to).dels (d, v) = _
   rw [exec_dels]
   exact rekey_spec s.dels frm to hne hto d v
 
@@ -252,7 +295,7 @@ theorem portfolio_moved_unbonding {s s' : State} {frm to : Addr} {sigOk : Bool}
     get s'.ubds (d, v) = if d = to then get s.ubds (frm, v) else if d = frm then none else get s.ubds (d, v) := by
   obtain ⟨hne, _, _, _, _, _, _, rfl⟩ := migrate_ok_inv h
   have hto := (target_without_staking_records h).2.1
-  show get (stakingExecute cfg (bankExecute s frm to) frm to).ubds (d, v) = _
+  show get (stakingExecute cfg (bankExecute cfg s frm to) frm to).ubds (d, v) = _
   rw [exec_ubds]
   exact rekey_spec s.ubds frm to hne hto d v
 
@@ -268,24 +311,24 @@ theorem portfolio_moved_frame {s s' : State} {frm to : Addr} {sigOk : Bool}
     unfold moved setRecord stakingExecute
     first
       | refine (foldl_keep (fun s : State => s.valTok) _ (fun s p => by
-          unfold moveRed; exact foldl_keep (fun s : State => s.valTok) _ (by intros; rfl) _ _) _ _).trans ?_
+          unfold moveRed; exact (foldl_keep (fun s : State => s.valTok) _ (by intros; rfl) _ _).trans (foldl_keep (fun s : State => s.valTok) _ (by intros; rfl) _ _)) _ _).trans ?_
         refine (foldl_keep (fun s : State => s.valTok) _ (fun s p => by
-          unfold moveUbd; exact foldl_keep (fun s : State => s.valTok) _ (by intros; rfl) _ _) _ _).trans ?_
+          unfold moveUbd; exact (foldl_keep (fun s : State => s.valTok) _ (by intros; rfl) _ _).trans (foldl_keep (fun s : State => s.valTok) _ (by intros; rfl) _ _)) _ _).trans ?_
         exact foldl_keep (fun s : State => s.valTok) _ (by intros; rfl) _ _
       | refine (foldl_keep (fun s : State => s.vals) _ (fun s p => by
-          unfold moveRed; exact foldl_keep (fun s : State => s.vals) _ (by intros; rfl) _ _) _ _).trans ?_
+          unfold moveRed; exact (foldl_keep (fun s : State => s.vals) _ (by intros; rfl) _ _).trans (foldl_keep (fun s : State => s.vals) _ (by intros; rfl) _ _)) _ _).trans ?_
         refine (foldl_keep (fun s : State => s.vals) _ (fun s p => by
-          unfold moveUbd; exact foldl_keep (fun s : State => s.vals) _ (by intros; rfl) _ _) _ _).trans ?_
+          unfold moveUbd; exact (foldl_keep (fun s : State => s.vals) _ (by intros; rfl) _ _).trans (foldl_keep (fun s : State => s.vals) _ (by intros; rfl) _ _)) _ _).trans ?_
         exact foldl_keep (fun s : State => s.vals) _ (by intros; rfl) _ _
       | refine (foldl_keep (fun s : State => s.period) _ (fun s p => by
-          unfold moveRed; exact foldl_keep (fun s : State => s.period) _ (by intros; rfl) _ _) _ _).trans ?_
+          unfold moveRed; exact (foldl_keep (fun s : State => s.period) _ (by intros; rfl) _ _).trans (foldl_keep (fun s : State => s.period) _ (by intros; rfl) _ _)) _ _).trans ?_
         refine (foldl_keep (fun s : State => s.period) _ (fun s p => by
-          unfold moveUbd; exact foldl_keep (fun s : State => s.period) _ (by intros; rfl) _ _) _ _).trans ?_
+          unfold moveUbd; exact (foldl_keep (fun s : State => s.period) _ (by intros; rfl) _ _).trans (foldl_keep (fun s : State => s.period) _ (by intros; rfl) _ _)) _ _).trans ?_
         exact foldl_keep (fun s : State => s.period) _ (by intros; rfl) _ _
       | refine (foldl_keep (fun s : State => s.now) _ (fun s p => by
-          unfold moveRed; exact foldl_keep (fun s : State => s.now) _ (by intros; rfl) _ _) _ _).trans ?_
+          unfold moveRed; exact (foldl_keep (fun s : State => s.now) _ (by intros; rfl) _ _).trans (foldl_keep (fun s : State => s.now) _ (by intros; rfl) _ _)) _ _).trans ?_
         refine (foldl_keep (fun s : State => s.now) _ (fun s p => by
-          unfold moveUbd; exact foldl_keep (fun s : State => s.now) _ (by intros; rfl) _ _) _ _).trans ?_
+          unfold moveUbd; exact (foldl_keep (fun s : State => s.now) _ (by intros; rfl) _ _).trans (foldl_keep (fun s : State => s.now) _ (by intros; rfl) _ _)) _ _).trans ?_
         exact foldl_keep (fun s : State => s.now) _ (by intros; rfl) _ _
 
 /-- **queues_rewritten** (delegations-by-validator index, 0x71): afterwards no index entry mentions the source and
@@ -300,7 +343,7 @@ theorem queues_rewritten_delegation_index {s s' : State} {frm to : Addr} {sigOk 
   have hx : ∀ v a, (v, a) ∈ (moved s frm to).delIdx ↔
       if ∃ p ∈ entriesOf s.dels frm, p.1.2 = v then (a = to ∨ (a ≠ frm ∧ (v, a) ∈ s.delIdx))
       else (v, a) ∈ s.delIdx := fun v a => by
-    show (v, a) ∈ (stakingExecute cfg (bankExecute s frm to) frm to).delIdx ↔ _
+    show (v, a) ∈ (stakingExecute cfg (bankExecute cfg s frm to) frm to).delIdx ↔ _
     rw [exec_delIdx]
     exact idx_fold_mem frm to hne (entriesOf s.dels frm) s.delIdx v a
   constructor
@@ -330,7 +373,7 @@ theorem queues_rewritten_unbonding_index {s s' : State} {frm to : Addr} {sigOk :
   have hx : ∀ v a, (v, a) ∈ (moved s frm to).ubdIdx ↔
       if ∃ p ∈ entriesOf s.ubds frm, p.1.2 = v then (a = to ∨ (a ≠ frm ∧ (v, a) ∈ s.ubdIdx))
       else (v, a) ∈ s.ubdIdx := fun v a => by
-    show (v, a) ∈ (stakingExecute cfg (bankExecute s frm to) frm to).ubdIdx ↔ _
+    show (v, a) ∈ (stakingExecute cfg (bankExecute cfg s frm to) frm to).ubdIdx ↔ _
     rw [exec_ubdIdx]
     exact idx_fold_mem frm to hne (entriesOf s.ubds frm) s.ubdIdx v a
   constructor
@@ -351,6 +394,578 @@ theorem queues_rewritten_unbonding_index {s s' : State} {frm to : Addr} {sigOk :
     simp only [this, ↓reduceIte, true_or]
 
 
+/-! ## portfolio_moved: balances, redelegations, reward entitlement; totals -/
+
+theorem moved_bal (s : State) (frm to : Addr) : (moved s frm to).bal = (bankExecute cfg s frm to).bal :=
+  exec_bal cfg (bankExecute cfg s frm to) frm to
+
+/-- **portfolio_moved** (bank balances, every denomination): after an accepted migration the target holds its prior
+balance plus the source's, the source holds nothing, every other account (users, module pools) is untouched -/
+theorem portfolio_moved_balances {s s' : State} {frm to : Addr} {sigOk : Bool}
+    (h : migrate cfg s frm to sigOk = .ok s') (a : Addr) (d : Denom) :
+    balOf s'.bal a d =
+      if a = to then balOf s.bal to d + balOf s.bal frm d else if a = frm then 0 else balOf s.bal a d := by
+  obtain ⟨hne, _, _, _, _, _, _, rfl⟩ := migrate_ok_inv h
+  rw [moved_bal]
+  exact bankExecute_spec cfg cfg_bankAll s frm to hne a d
+
+/-- **portfolio_moved** (redelegations, with all their entries: completion time, balance, unbonding id) -/
+theorem portfolio_moved_redelegations {s s' : State} {frm to : Addr} {sigOk : Bool}
+    (h : migrate cfg s frm to sigOk = .ok s') (d : Addr) (src dst : Val) :
+    get s'.reds (d, src, dst) =
+      if d = to then get s.reds (frm, src, dst) else if d = frm then none else get s.reds (d, src, dst) := by
+  obtain ⟨hne, _, _, _, _, _, _, rfl⟩ := migrate_ok_inv h
+  have hto := (target_without_staking_records h).2.2
+  show get (stakingExecute cfg (bankExecute cfg s frm to) frm to).reds (d, src, dst) = _
+  rw [exec_reds]
+  exact rekey_spec s.reds frm to hne hto d (src, dst)
+
+/-- **portfolio_moved** (reward entitlement): for every validator the source delegates to, the distribution starting
+info (previous period, stake) of the source is moved under the target and the source keeps none; together with
+`portfolio_moved_frame` (validator reward periods untouched) and `portfolio_moved_delegations` (shares) these are the
+inputs of the F1 reward formula.  Starting infos of all other delegators, and of validators the source does not
+delegate to, are untouched. -/
+theorem portfolio_moved_starting_info {s s' : State} {frm to : Addr} {sigOk : Bool}
+    (h : migrate cfg s frm to sigOk = .ok s') (v : Val) :
+    ((∃ sh, get s.dels (frm, v) = some sh) →
+        get s'.startInfo (v, to) = (get s.startInfo (v, frm) <|> get s.startInfo (v, to)) ∧
+        get s'.startInfo (v, frm) = none) ∧
+    ((get s.dels (frm, v) = none) →
+        get s'.startInfo (v, to) = get s.startInfo (v, to) ∧ get s'.startInfo (v, frm) = get s.startInfo (v, frm)) ∧
+    (∀ a, a ≠ frm → a ≠ to → get s'.startInfo (v, a) = get s.startInfo (v, a)) := by
+  obtain ⟨hne, _, _, _, _, _, _, rfl⟩ := migrate_ok_inv h
+  have key : ∀ a, get (moved s frm to).startInfo (v, a) =
+      if ∃ p ∈ entriesOf s.dels frm, p.1.2 = v then
+        (if a = frm then none else if a = to then (get s.startInfo (v, frm) <|> get s.startInfo (v, to))
+         else get s.startInfo (v, a))
+      else get s.startInfo (v, a) := fun a => by
+    show get (stakingExecute cfg (bankExecute cfg s frm to) frm to).startInfo (v, a) = _
+    rw [exec_startInfo]
+    exact get_siFold frm to hne _ _ v a
+  refine ⟨fun ⟨sh, hsh⟩ => ?_, fun hnone => ?_, fun a h1 h2 => ?_⟩
+  · have hex := entriesOf_of_get s.dels frm v sh hsh
+    refine ⟨?_, ?_⟩
+    · rw [key, if_pos hex, if_neg (fun e : to = frm => hne e.symm), if_pos rfl]
+    · rw [key, if_pos hex, if_pos rfl]
+  · have hno : ¬ ∃ p ∈ entriesOf s.dels frm, p.1.2 = v := fun ⟨p, hp, e⟩ => entriesOf_none s.dels frm v hnone p hp e
+    refine ⟨?_, ?_⟩ <;> rw [key, if_neg hno]
+  · rw [key, if_neg h1, if_neg h2]
+    split <;> rfl
+
+/-- delegated shares of an account with a validator (0 without a record) -/
+def sharesOf (s : State) (v : Val) (a : Addr) : Nat := (get s.dels (a, v)).getD 0
+/-- total balance of the unbonding entries of an account with a validator -/
+def unbondingOf (s : State) (v : Val) (a : Addr) : Nat := (((get s.ubds (a, v)).getD []).map (·.2.1)).sum
+/-- total balance of the redelegation entries of an account for a (source, destination) pair -/
+def redelegatingOf (s : State) (src dst : Val) (a : Addr) : Nat :=
+  (((get s.reds (a, src, dst)).getD []).map (·.2.1)).sum
+
+/-- **totals_unchanged**: over any duplicate-free set of accounts that contains both the source and the target (or
+neither) — in particular over all accounts — the total balance of every denomination, the total shares delegated to
+every validator, and the total unbonding and redelegating balance per validator (pair) are the same before and after an
+accepted migration; validator tokens are untouched (`portfolio_moved_frame`), and the module pools (bonded, not-bonded,
+gov), not being the source or the target, keep their balances (`portfolio_moved_balances`). -/
+theorem totals_unchanged {s s' : State} {frm to : Addr} {sigOk : Bool} (h : migrate cfg s frm to sigOk = .ok s')
+    (A : List Addr) (hA : A.Nodup) (hboth : frm ∈ A ↔ to ∈ A) :
+    (∀ d, sumOver A (fun a => balOf s'.bal a d) = sumOver A (fun a => balOf s.bal a d)) ∧
+    (∀ v, sumOver A (sharesOf s' v) = sumOver A (sharesOf s v)) ∧
+    (∀ v, sumOver A (unbondingOf s' v) = sumOver A (unbondingOf s v)) ∧
+    (∀ src dst, sumOver A (redelegatingOf s' src dst) = sumOver A (redelegatingOf s src dst)) := by
+  have hne := (migrate_ok_inv h).1
+  have hto := target_without_staking_records h
+  refine ⟨fun d => ?_, fun v => ?_, fun v => ?_, fun src dst => ?_⟩
+  · exact sumOver_moved _ _ frm to hne (fun a => portfolio_moved_balances h a d) A hA hboth
+  · exact sumOver_moved _ _ frm to hne (fun a => moved_measure s.dels s'.dels frm to hne hto.1
+      (fun d x => portfolio_moved_delegations h d x) (fun o => o.getD 0) rfl v a) A hA hboth
+  · exact sumOver_moved _ _ frm to hne (fun a => moved_measure s.ubds s'.ubds frm to hne hto.2.1
+      (fun d x => portfolio_moved_unbonding h d x) (fun o => ((o.getD []).map (·.2.1)).sum) rfl v a) A hA hboth
+  · exact sumOver_moved _ _ frm to hne (fun a => moved_measure s.reds s'.reds frm to hne hto.2.2
+      (fun d x => portfolio_moved_redelegations h d x.1 x.2) (fun o => ((o.getD []).map (·.2.1)).sum) rfl (src, dst) a)
+      A hA hboth
+
+/-- **all or refuse** (bank): an accepted migration leaves the source without any balance in any denomination; a
+refused one leaves the whole state — balances, records, the one-shot migration record — as it was; and a source that
+holds a coin it cannot spend (a vesting account with locked coins) is refused as a whole, because the bank handler sends
+`GetAllBalances(from)` in one `SendCoins`. -/
+theorem migrate_all_or_refuse (s : State) (frm to : Addr) (sigOk : Bool) :
+    (∀ s', migrate cfg s frm to sigOk = .ok s' → ∀ d, balOf s'.bal frm d = 0) ∧
+    (∀ e, migrate cfg s frm to sigOk = .error e → (step cfg s (.migrate frm to sigOk)).1 = s) ∧
+    ((∃ d n, get s.bal (frm, d) = some n ∧ 0 < n ∧ 0 < lockedOf s frm d) → ∀ s', migrate cfg s frm to sigOk ≠ .ok s') := by
+  refine ⟨fun s' h d => ?_, fun e h => ?_, fun ⟨d, n, hg, hn, hl⟩ s' h => ?_⟩
+  · rw [portfolio_moved_balances h frm d]
+    have hne := (migrate_ok_inv h).1
+    simp [hne]
+  · simp only [step, h]
+  · have hb := migrate_ok_not_blocked h
+    unfold bankBlocked bankAmounts at hb
+    rw [cfg_bankAll] at hb
+    simp only [↓reduceIte] at hb
+    have := List.any_eq_false.mp hb (d, n) (balancesOf_mem s.bal frm d n hg)
+    have hbal : balOf s.bal frm d = n := by simp [balOf, hg]
+    simp only [hbal] at this
+    apply this
+    simp only [Bool.and_eq_true, decide_eq_true_eq]
+    exact ⟨hn, by omega⟩
+
+
+/-! ## queues_rewritten: redelegation indexes, time-queue slices -/
+
+theorem moved_reds_eq (s : State) (frm to : Addr) :
+    (moved s frm to).redSrcIdx = (entriesOf s.reds frm).foldl (idxStepG mkSrc frm to) s.redSrcIdx ∧
+    (moved s frm to).redDstIdx = (entriesOf s.reds frm).foldl (idxStepG mkDst frm to) s.redDstIdx :=
+  ⟨exec_redSrcIdx cfg (bankExecute cfg s frm to) frm to, exec_redDstIdx cfg (bankExecute cfg s frm to) frm to⟩
+
+/-- **queues_rewritten** (redelegations-by-source-validator 0x35 and by-destination-validator 0x36 indexes): afterwards
+no entry of either index mentions the source, every redelegation of the target is indexed in both, and the entries of
+other delegators are untouched.  Hypothesis: before, neither index held an entry of the source without a redelegation
+record (an index entry is written and deleted together with its record). -/
+theorem queues_rewritten_redelegation_indexes {s s' : State} {frm to : Addr} {sigOk : Bool}
+    (h : migrate cfg s frm to sigOk = .ok s')
+    (hsrc : ∀ a b, (a, frm, b) ∈ s.redSrcIdx → ∃ es, get s.reds (frm, a, b) = some es)
+    (hdst : ∀ a b, (b, frm, a) ∈ s.redDstIdx → ∃ es, get s.reds (frm, a, b) = some es) :
+    (∀ a b, (a, frm, b) ∉ s'.redSrcIdx ∧ (b, frm, a) ∉ s'.redDstIdx) ∧
+    (∀ a b es, get s'.reds (to, a, b) = some es → (a, to, b) ∈ s'.redSrcIdx ∧ (b, to, a) ∈ s'.redDstIdx) ∧
+    (∀ a b d, d ≠ frm → d ≠ to →
+      (((a, d, b) ∈ s'.redSrcIdx ↔ (a, d, b) ∈ s.redSrcIdx) ∧ ((b, d, a) ∈ s'.redDstIdx ↔ (b, d, a) ∈ s.redDstIdx))) := by
+  have hr := portfolio_moved_redelegations h
+  obtain ⟨hne, _, _, _, _, _, _, rfl⟩ := migrate_ok_inv h
+  obtain ⟨e1, e2⟩ := moved_reds_eq s frm to
+  obtain ⟨s1, s2, s3⟩ := idxG_after mkSrc mkSrc_inj frm to hne s.reds s.redSrcIdx (fun x hx => hsrc x.1 x.2 hx)
+  obtain ⟨d1, d2, d3⟩ := idxG_after mkDst mkDst_inj frm to hne s.reds s.redDstIdx (fun x hx => hdst x.1 x.2 hx)
+  rw [← e1] at s1 s2 s3
+  rw [← e2] at d1 d2 d3
+  refine ⟨fun a b => ⟨s1 (a, b), d1 (a, b)⟩, fun a b es hg => ?_, fun a b d h1 h2 => ⟨s3 (a, b) d h1 h2, d3 (a, b) d h1 h2⟩⟩
+  rw [hr to a b] at hg
+  simp only [↓reduceIte] at hg
+  exact ⟨s2 (a, b) es hg, d2 (a, b) es hg⟩
+
+/-- **queues_rewritten** (time-queue slices, 0x41 unbonding queue and 0x42 redelegation queue), for every state: the
+slice stored under a completion time at which the source holds an entry (in whatever record, however many records or
+entries share that time, whoever else is in the slice) is the old slice with every element of the source renamed to the
+target, order kept; every other slice is untouched. -/
+theorem queues_rewritten_time_slices {s s' : State} {frm to : Addr} {sigOk : Bool}
+    (h : migrate cfg s frm to sigOk = .ok s') (t : Time) :
+    (hasEntryAt s.ubds frm t → get s'.ubdQ t = (get s.ubdQ t).map (List.map (renPair frm to))) ∧
+    (¬ hasEntryAt s.ubds frm t → get s'.ubdQ t = get s.ubdQ t) ∧
+    (hasEntryAt s.reds frm t → get s'.redQ t = (get s.redQ t).map (List.map (renTriple frm to))) ∧
+    (¬ hasEntryAt s.reds frm t → get s'.redQ t = get s.redQ t) := by
+  obtain ⟨hne, _, _, _, _, _, _, rfl⟩ := migrate_ok_inv h
+  have hu : get (moved s frm to).ubdQ t = if t ∈ entryTimes s.ubds frm then
+      (get s.ubdQ t).map (List.map (renG frm to)) else get s.ubdQ t := by
+    show get (stakingExecute cfg (bankExecute cfg s frm to) frm to).ubdQ t = _
+    rw [exec_ubdQ cfg cfg_queue.1 cfg_queue.2]; exact get_qFold frm to hne _ _ t
+  have hr : get (moved s frm to).redQ t = if t ∈ entryTimes s.reds frm then
+      (get s.redQ t).map (List.map (renG frm to)) else get s.redQ t := by
+    show get (stakingExecute cfg (bankExecute cfg s frm to) frm to).redQ t = _
+    rw [exec_redQ cfg cfg_queue.1 cfg_queue.2]; exact get_qFold frm to hne _ _ t
+  refine ⟨fun he => ?_, fun he => ?_, fun he => ?_, fun he => ?_⟩
+  · rw [hu, if_pos ((mem_entryTimes _ _ _).mpr he)]; rfl
+  · rw [hu, if_neg (fun e => he ((mem_entryTimes _ _ _).mp e))]
+  · rw [hr, if_pos ((mem_entryTimes _ _ _).mpr he)]; rfl
+  · rw [hr, if_neg (fun e => he ((mem_entryTimes _ _ _).mp e))]
+
+/-- **queues_rewritten** (no stale queue element, every moved entry still queued).  Hypothesis `hq`: before, every queue
+element of the source stands in the slice of a completion time at which the source holds an entry (queue elements are
+inserted together with their entry and leave with the slice; `MsgCancelUnbondingDelegation` is outside the modelled
+histories).  Then afterwards every slice is the old one with the source renamed, no slice mentions the source, and
+every entry of the target is announced in the slice of its completion time whenever the source's was. -/
+theorem queues_rewritten_no_stale_element {s s' : State} {frm to : Addr} {sigOk : Bool}
+    (h : migrate cfg s frm to sigOk = .ok s')
+    (hq : ∀ t sl, get s.ubdQ t = some sl → ∀ x ∈ sl, x.1 = frm → hasEntryAt s.ubds frm t)
+    (hr : ∀ t sl, get s.redQ t = some sl → ∀ x ∈ sl, x.1 = frm → hasEntryAt s.reds frm t) :
+    (∀ t, get s'.ubdQ t = (get s.ubdQ t).map (List.map (renPair frm to))) ∧
+    (∀ t, get s'.redQ t = (get s.redQ t).map (List.map (renTriple frm to))) ∧
+    (∀ t sl, get s'.ubdQ t = some sl → ∀ x ∈ sl, x.1 ≠ frm) ∧
+    (∀ t sl, get s'.redQ t = some sl → ∀ x ∈ sl, x.1 ≠ frm) ∧
+    (∀ v es e, get s'.ubds (to, v) = some es → e ∈ es →
+      (∃ sl, get s.ubdQ e.1 = some sl ∧ (frm, v) ∈ sl) → ∃ sl, get s'.ubdQ e.1 = some sl ∧ (to, v) ∈ sl) ∧
+    (∀ a b es e, get s'.reds (to, a, b) = some es → e ∈ es →
+      (∃ sl, get s.redQ e.1 = some sl ∧ (frm, a, b) ∈ sl) → ∃ sl, get s'.redQ e.1 = some sl ∧ (to, a, b) ∈ sl) := by
+  have hne := (migrate_ok_inv h).1
+  have hts := queues_rewritten_time_slices h
+  have clean : ∀ {γ : Type} (sl : List (Addr × γ)), (∀ x ∈ sl, x.1 ≠ frm) → sl.map (renG frm to) = sl := by
+    intro γ sl hsl
+    apply map_renG_of_clean
+    apply List.any_eq_false.mpr
+    intro x hx
+    have := hsl x hx
+    simpa using this
+  have hU : ∀ t, get s'.ubdQ t = (get s.ubdQ t).map (List.map (renPair frm to)) := fun t => by
+    by_cases he : hasEntryAt s.ubds frm t
+    · exact (hts t).1 he
+    · rw [(hts t).2.1 he]
+      cases hg : get s.ubdQ t with
+      | none => rfl
+      | some sl =>
+        have : ∀ x ∈ sl, x.1 ≠ frm := fun x hx e => he (hq t sl hg x hx e)
+        simp only [Option.map_some, renPair_eq, clean sl this]
+  have hR : ∀ t, get s'.redQ t = (get s.redQ t).map (List.map (renTriple frm to)) := fun t => by
+    by_cases he : hasEntryAt s.reds frm t
+    · exact (hts t).2.2.1 he
+    · rw [(hts t).2.2.2 he]
+      cases hg : get s.redQ t with
+      | none => rfl
+      | some sl =>
+        have : ∀ x ∈ sl, x.1 ≠ frm := fun x hx e => he (hr t sl hg x hx e)
+        simp only [Option.map_some, renTriple_eq, clean sl this]
+  refine ⟨hU, hR, fun t sl hg x hx => ?_, fun t sl hg x hx => ?_, fun v es e _ _ ⟨sl, hsl, hm⟩ => ?_,
+    fun a b es e _ _ ⟨sl, hsl, hm⟩ => ?_⟩
+  · rw [hU t] at hg
+    cases hg0 : get s.ubdQ t with
+    | none => rw [hg0] at hg; cases hg
+    | some sl0 =>
+      rw [hg0] at hg; cases hg
+      exact renG_clean frm to hne sl0 x hx
+  · rw [hR t] at hg
+    cases hg0 : get s.redQ t with
+    | none => rw [hg0] at hg; cases hg
+    | some sl0 =>
+      rw [hg0] at hg; cases hg
+      exact renG_clean frm to hne sl0 x hx
+  · refine ⟨sl.map (renPair frm to), by rw [hU, hsl]; rfl, ?_⟩
+    exact List.mem_map.mpr ⟨(frm, v), hm, by simp [renPair]⟩
+  · refine ⟨sl.map (renTriple frm to), by rw [hR, hsl]; rfl, ?_⟩
+    exact List.mem_map.mpr ⟨(frm, a, b), hm, by simp [renTriple]⟩
+
+
+/-- **queues_rewritten** (unbonding-id index, 0x38).  Hypothesis `IdWF`: before, the index points every entry id of the
+source's unbonding delegations and redelegations at the key of its record, nothing else at a key of the source, nothing
+at a key of the target.  Then afterwards every id reads the old value with the source replaced by the target: ids of
+moved entries point at the target's records, no id points at a key of the source, all other ids are untouched. -/
+theorem queues_rewritten_unbonding_id_index {s s' : State} {frm to : Addr} {sigOk : Bool}
+    (h : migrate cfg s frm to sigOk = .ok s') (wf : IdWF s frm to) :
+    (∀ id, get s'.unbId id = (get s.unbId id).map (swP frm to)) ∧ (∀ id r, get s'.unbId id = some r → r.1 ≠ frm) := by
+  obtain ⟨hne, _, _, _, _, _, _, rfl⟩ := migrate_ok_inv h
+  have hc2 : cfg.rewriteUnbId = true := by rw [cfg_from_code]
+  have wfB : IdWF (bankExecute cfg s frm to) frm to := ⟨wf.id_ubd, wf.id_red, wf.id_of, wf.id_to⟩
+  have key : ∀ id, get (moved s frm to).unbId id = (get s.unbId id).map (swP frm to) :=
+    fun id => unbId_ExtRel cfg hc2 (bankExecute cfg s frm to) wfB id
+  refine ⟨key, fun id r hr e => ?_⟩
+  rw [key] at hr
+  cases hg : get s.unbId id with
+  | none => rw [hg] at hr; cases hr
+  | some r0 =>
+    rw [hg] at hr
+    simp only [Option.map_some, Option.some.injEq] at hr
+    subst hr
+    simp only [swP] at e
+    by_cases h1 : r0.1 = frm
+    · rw [h1, sw_frm] at e; exact hne e.symm
+    · have h2 := wf.id_to id r0 hg
+      rw [sw_fix frm to r0.1 h1 h2] at e
+      exact h1 e
+
+
+/-! ## the index invariant of every history, and the index theorems without hypothesis on the pre-state -/
+
+/-- every operation keeps: a by-validator index entry (0x71, 0x33, 0x35, 0x36) exists exactly together with its record -/
+theorem idxInv_step {s : State} (h : IdxInv s) (op : Op) : IdxInv (step cfg s op).1 := by
+  have keep : ∀ (o : Option State), (∀ s', o = some s' → IdxInv s') → IdxInv (ofOpt s o).1 := by
+    intro o ho
+    cases o with
+    | none => exact h
+    | some s' => exact ho s' rfl
+  cases op with
+  | send x y d n =>
+    simp only [step]
+    apply keep
+    intro s' hs
+    cases hb : sendUnlocked s.bal (lockedOf s x d) x y d n <;> simp [hb] at hs
+    subst hs; exact idxInv_of_fields h rfl rfl rfl rfl rfl rfl rfl
+  | mint x d n => exact idxInv_of_fields h rfl rfl rfl rfl rfl rfl rfl
+  | delegate d v amt rw => exact keep _ (fun s' hs => idxInv_delegate h hs)
+  | undelegate d v amt rw => exact keep _ (fun s' hs => idxInv_undelegate h hs)
+  | redelegate d x y amt r1 r2 => exact keep _ (fun s' hs => idxInv_redelegate h hs)
+  | withdraw d v rw => exact keep _ (fun s' hs => idxInv_withdraw h hs)
+  | setWithdraw d w => exact idxInv_of_fields h rfl rfl rfl rfl rfl rfl rfl
+  | submit x dep =>
+    refine keep _ (fun s' hs => ?_)
+    unfold submit at hs
+    split at hs
+    · cases hs
+    · cases hs; exact idxInv_of_fields h rfl rfl rfl rfl rfl rfl rfl
+  | deposit x id amt =>
+    refine keep _ (fun s' hs => ?_)
+    unfold deposit at hs
+    split at hs
+    · cases hs
+    · split at hs
+      · cases hs
+      · split at hs
+        · cases hs
+        · cases hs; exact idxInv_of_fields h rfl rfl rfl rfl rfl rfl rfl
+  | vote x id =>
+    refine keep _ (fun s' hs => ?_)
+    unfold vote at hs
+    split at hs
+    · cases hs
+    · split at hs
+      · cases hs
+      · cases hs; exact idxInv_of_fields h rfl rfl rfl rfl rfl rfl rfl
+  | block dt => exact idxInv_endBlock h dt
+  | setPeriods dp vp => exact idxInv_of_fields h rfl rfl rfl rfl rfl rfl rfl
+  | migrate f t sg =>
+    simp only [step]
+    cases hm : migrate cfg s f t sg with
+    | error e => exact h
+    | ok s' =>
+      have hto := target_without_staking_records hm
+      obtain ⟨hne, _, _, _, _, _, _, rfl⟩ := migrate_ok_inv hm
+      have hc : cfg.rewriteDelIdx = true := by rw [cfg_from_code]
+      have hB : IdxInv (bankExecute cfg s f t) := idxInv_of_fields h rfl rfl rfl rfl rfl rfl rfl
+      exact idxInv_of_fields (idxInv_stakingExecute cfg hc hB f t hne hto) rfl rfl rfl rfl rfl rfl rfl
+
+/-- **invariant of every history**: from a state in which the indexes agree with the records (for instance one without
+staking records), after ANY list of operations — migrations included — they still do -/
+theorem idxInv_run {s : State} (h : IdxInv s) (ops : List Op) : IdxInv (run cfg s ops) := by
+  induction ops generalizing s with
+  | nil => exact h
+  | cons op ops ih => exact ih (idxInv_step h op)
+
+/-- a state without staking records satisfies the invariant -/
+theorem idxInv_base (s : State) (h1 : s.dels = []) (h2 : s.delIdx = []) (h3 : s.ubds = []) (h4 : s.ubdIdx = [])
+    (h5 : s.reds = []) (h6 : s.redSrcIdx = []) (h7 : s.redDstIdx = []) : IdxInv s := by
+  refine ⟨?_, ?_, ?_, ?_⟩ <;> intro a x <;> simp [h1, h2, h3, h4, h5, h6, h7, get_nil]
+
+/-- **queues_rewritten** (all four by-validator indexes) for every reachable state, without any hypothesis on the state
+in which the migration happens: after any history from a state without staking records, an accepted migration leaves no
+index entry of the source in any of the four indexes, and afterwards (and after any further history) every index still
+holds an entry exactly for the records in the store — in particular every record of the target is indexed. -/
+theorem queues_rewritten_indexes_reachable {s0 : State} (h0 : IdxInv s0) (before : List Op) {s' : State} {frm to : Addr}
+    {sigOk : Bool} (h : migrate cfg (run cfg s0 before) frm to sigOk = .ok s') (later : List Op) :
+    (∀ v, (v, frm) ∉ s'.delIdx ∧ (v, frm) ∉ s'.ubdIdx) ∧
+    (∀ a b, (a, frm, b) ∉ s'.redSrcIdx ∧ (b, frm, a) ∉ s'.redDstIdx) ∧
+    IdxInv s' ∧ IdxInv (run cfg s' later) := by
+  have hs' : IdxInv s' := by
+    have := idxInv_step (idxInv_run h0 before) (.migrate frm to sigOk)
+    simpa [step, h] using this
+  have hne := (migrate_ok_inv h).1
+  have hd := portfolio_moved_delegations h
+  have hu := portfolio_moved_unbonding h
+  have hr := portfolio_moved_redelegations h
+  refine ⟨fun v => ⟨fun e => ?_, fun e => ?_⟩, fun a b => ⟨fun e => ?_, fun e => ?_⟩, hs', idxInv_run hs' later⟩
+  · obtain ⟨y, hy⟩ := (hs'.del frm v).mp e
+    rw [hd frm v] at hy; simp [hne] at hy
+  · obtain ⟨y, hy⟩ := (hs'.ubd frm v).mp e
+    rw [hu frm v] at hy; simp [hne] at hy
+  · obtain ⟨y, hy⟩ := (hs'.rsrc frm (a, b)).mp e
+    rw [hr frm a b] at hy; simp [hne] at hy
+  · obtain ⟨y, hy⟩ := (hs'.rdst frm (a, b)).mp e
+    rw [hr frm a b] at hy; simp [hne] at hy
+
+
+/-! ## the queue invariant of every history, and the queue theorem without hypothesis on the pre-state -/
+
+/-- every operation keeps: each time queue has one slice per completion time, and every element of a slice names a
+record holding an entry that completes at the slice's time -/
+theorem qInv_step {s : State} (h : QInv s) (op : Op) : QInv (step cfg s op).1 := by
+  have keep : ∀ (o : Option State), (∀ s', o = some s' → QInv s') → QInv (ofOpt s o).1 := by
+    intro o ho
+    cases o with
+    | none => exact h
+    | some s' => exact ho s' rfl
+  cases op with
+  | send x y d n =>
+    simp only [step]
+    apply keep
+    intro s' hs
+    cases hb : sendUnlocked s.bal (lockedOf s x d) x y d n <;> simp [hb] at hs
+    subst hs; exact qInv_of_fields h rfl rfl rfl rfl
+  | mint x d n => exact qInv_of_fields h rfl rfl rfl rfl
+  | delegate d v amt rw => exact keep _ (fun s' hs => h.frame (qframe_delegate hs))
+  | undelegate d v amt rw => exact keep _ (fun s' hs => qInv_undelegate h hs)
+  | redelegate d x y amt r1 r2 => exact keep _ (fun s' hs => qInv_redelegate h hs)
+  | withdraw d v rw => exact keep _ (fun s' hs => h.frame (qframe_withdraw hs))
+  | setWithdraw d w => exact qInv_of_fields h rfl rfl rfl rfl
+  | submit x dep =>
+    refine keep _ (fun s' hs => ?_)
+    unfold submit at hs
+    split at hs
+    · cases hs
+    · cases hs; exact qInv_of_fields h rfl rfl rfl rfl
+  | deposit x id amt =>
+    refine keep _ (fun s' hs => ?_)
+    unfold deposit at hs
+    split at hs
+    · cases hs
+    · split at hs
+      · cases hs
+      · split at hs
+        · cases hs
+        · cases hs; exact qInv_of_fields h rfl rfl rfl rfl
+  | vote x id =>
+    refine keep _ (fun s' hs => ?_)
+    unfold vote at hs
+    split at hs
+    · cases hs
+    · split at hs
+      · cases hs
+      · cases hs; exact qInv_of_fields h rfl rfl rfl rfl
+  | block dt => exact qInv_endBlock h dt
+  | setPeriods dp vp => exact qInv_of_fields h rfl rfl rfl rfl
+  | migrate f t sg =>
+    simp only [step]
+    cases hm : migrate cfg s f t sg with
+    | error e => exact h
+    | ok s' =>
+      have hto := target_without_staking_records hm
+      obtain ⟨hne, _, _, _, _, _, _, rfl⟩ := migrate_ok_inv hm
+      have hB : QInv (bankExecute cfg s f t) := qInv_of_fields h rfl rfl rfl rfl
+      exact qInv_of_fields (qInv_stakingExecute cfg cfg_queue.1 cfg_queue.2 hB f t hne ⟨hto.2.1, hto.2.2⟩) rfl rfl rfl rfl
+
+/-- **invariant of every history** (time queues) -/
+theorem qInv_run {s : State} (h : QInv s) (ops : List Op) : QInv (run cfg s ops) := by
+  induction ops generalizing s with
+  | nil => exact h
+  | cons op ops ih => exact ih (qInv_step h op)
+
+/-- a state with empty time queues satisfies the invariant -/
+theorem qInv_base (s : State) (h1 : s.ubdQ = []) (h2 : s.redQ = []) : QInv s := by
+  refine ⟨⟨?_, ?_⟩, ⟨?_, ?_⟩⟩ <;> simp [h1, h2]
+
+/-- **queues_rewritten** (time-queue slices) for every reachable state, without any hypothesis on the state in which
+the migration happens: after any history from a state with empty queues, an accepted migration leaves every slice of
+both queues equal to the old slice with the source renamed to the target, no slice names the source any more, and every
+element of every slice — those of the target included — still names a record with an entry completing at that time, so
+that the end blocker finds and completes it; the same holds after any further history. -/
+theorem queues_rewritten_time_slices_reachable {s0 : State} (h0 : QInv s0) (before : List Op) {s' : State}
+    {frm to : Addr} {sigOk : Bool} (h : migrate cfg (run cfg s0 before) frm to sigOk = .ok s') (later : List Op) :
+    (∀ t, get s'.ubdQ t = (get (run cfg s0 before).ubdQ t).map (List.map (renPair frm to))) ∧
+    (∀ t, get s'.redQ t = (get (run cfg s0 before).redQ t).map (List.map (renTriple frm to))) ∧
+    (∀ t sl, get s'.ubdQ t = some sl → ∀ x ∈ sl, x.1 ≠ frm) ∧
+    (∀ t sl, get s'.redQ t = some sl → ∀ x ∈ sl, x.1 ≠ frm) ∧
+    QInv s' ∧ QInv (run cfg s' later) := by
+  have hs := qInv_run h0 before
+  have hs' : QInv s' := by
+    have := qInv_step hs (.migrate frm to sigOk)
+    simpa [step, h] using this
+  have hq : ∀ t sl, get (run cfg s0 before).ubdQ t = some sl → ∀ x ∈ sl, x.1 = frm →
+      hasEntryAt (run cfg s0 before).ubds frm t := by
+    intro t sl hg x hx e
+    obtain ⟨es, hes, en, hen, het⟩ := hs.u.ann (t, sl) (get_some_mem _ _ _ hg) x hx
+    exact ⟨x.2, es, by rw [← e]; exact hes, en, hen, het⟩
+  have hr : ∀ t sl, get (run cfg s0 before).redQ t = some sl → ∀ x ∈ sl, x.1 = frm →
+      hasEntryAt (run cfg s0 before).reds frm t := by
+    intro t sl hg x hx e
+    obtain ⟨es, hes, en, hen, het⟩ := hs.r.ann (t, sl) (get_some_mem _ _ _ hg) x hx
+    exact ⟨x.2, es, by rw [← e]; exact hes, en, hen, het⟩
+  obtain ⟨a1, a2, a3, a4, _, _⟩ := queues_rewritten_no_stale_element h hq hr
+  exact ⟨a1, a2, a3, a4, hs', qInv_run hs' later⟩
+
+
+/-! ## starting infos and unbonding ids: invariants of every history -/
+
+/-- every operation keeps: a starting info exists only with its delegation (`SiInv`), and the unbonding-id index agrees
+with the entries of the records — every entry indexed at its record's key, every index entry backed by an entry, ids
+below the counter, ids of a record distinct (`IdInv`) -/
+theorem siIdInv_step {s : State} (h : SiInv s ∧ IdInv s) (op : Op) : SiInv (step cfg s op).1 ∧ IdInv (step cfg s op).1 := by
+  obtain ⟨hs, hi⟩ := h
+  have keep : ∀ (o : Option State), (∀ s', o = some s' → SiInv s' ∧ IdInv s') →
+      SiInv (ofOpt s o).1 ∧ IdInv (ofOpt s o).1 := by
+    intro o ho
+    cases o with
+    | none => exact ⟨hs, hi⟩
+    | some s' => exact ho s' rfl
+  have same : ∀ s' : State, s'.dels = s.dels → s'.startInfo = s.startInfo → IFrame s s' → SiInv s' ∧ IdInv s' :=
+    fun s' e1 e2 f => ⟨siInv_of_fields hs e1 e2, hi.frame f⟩
+  cases op with
+  | send x y d n =>
+    simp only [step]
+    apply keep
+    intro s' hh
+    cases hb : sendUnlocked s.bal (lockedOf s x d) x y d n <;> simp [hb] at hh
+    subst hh; exact same _ rfl rfl ⟨rfl, rfl, rfl, rfl⟩
+  | mint x d n => exact same _ rfl rfl ⟨rfl, rfl, rfl, rfl⟩
+  | delegate d v amt rw => exact keep _ (fun s' hh => ⟨siInv_delegate hs hh, hi.frame (iframe_delegate hh)⟩)
+  | undelegate d v amt rw =>
+    refine keep _ (fun s' hh => ⟨?_, idInv_undelegate hi hh⟩)
+    unfold undelegate at hh
+    split at hh
+    · cases hh
+    · simp only [] at hh
+      split at hh
+      · cases hh
+      · split at hh
+        · cases hh
+        · rename_i s1 h1
+          split at hh
+          · cases hh
+          · cases hh; exact siInv_of_fields (siInv_unbond hs h1) rfl rfl
+  | redelegate d x y amt r1 r2 =>
+    refine keep _ (fun s' hh => ⟨?_, idInv_redelegate hi hh⟩)
+    unfold redelegate at hh
+    split at hh
+    · cases hh
+    · split at hh
+      · cases hh
+      · simp only [] at hh
+        split at hh
+        · cases hh
+        · split at hh
+          · cases hh
+          · rename_i s1 h1
+            split at hh
+            · cases hh
+            · rename_i s2 h2
+              cases hh; exact siInv_of_fields (siInv_addShares (siInv_unbond hs h1) h2) rfl rfl
+  | withdraw d v rw => exact keep _ (fun s' hh => ⟨siInv_withdraw hs hh, hi.frame (iframe_withdraw hh)⟩)
+  | setWithdraw d w => exact same _ rfl rfl ⟨rfl, rfl, rfl, rfl⟩
+  | submit x dep =>
+    refine keep _ (fun s' hh => ?_)
+    unfold submit at hh
+    split at hh
+    · cases hh
+    · cases hh; exact same _ rfl rfl ⟨rfl, rfl, rfl, rfl⟩
+  | deposit x id amt =>
+    refine keep _ (fun s' hh => ?_)
+    unfold deposit at hh
+    split at hh
+    · cases hh
+    · split at hh
+      · cases hh
+      · split at hh
+        · cases hh
+        · cases hh; exact same _ rfl rfl ⟨rfl, rfl, rfl, rfl⟩
+  | vote x id =>
+    refine keep _ (fun s' hh => ?_)
+    unfold vote at hh
+    split at hh
+    · cases hh
+    · split at hh
+      · cases hh
+      · cases hh; exact same _ rfl rfl ⟨rfl, rfl, rfl, rfl⟩
+  | block dt => exact ⟨siInv_frame hs (sframe_endBlock s dt), idInv_endBlock hi dt⟩
+  | setPeriods dp vp => exact same _ rfl rfl ⟨rfl, rfl, rfl, rfl⟩
+  | migrate f t sg =>
+    simp only [step]
+    cases hm : migrate cfg s f t sg with
+    | error e => exact ⟨hs, hi⟩
+    | ok s' =>
+      have hto := target_without_staking_records hm
+      obtain ⟨hne, _, _, _, _, _, _, rfl⟩ := migrate_ok_inv hm
+      have hc2 : cfg.rewriteUnbId = true := by rw [cfg_from_code]
+      have hsB : SiInv (bankExecute cfg s f t) := siInv_of_fields hs rfl rfl
+      have hiB : IdInv (bankExecute cfg s f t) := hi.frame ⟨rfl, rfl, rfl, rfl⟩
+      exact ⟨siInv_of_fields (siInv_stakingExecute cfg hsB f t hne hto.1) rfl rfl,
+        (idInv_stakingExecute cfg hc2 hiB f t hne ⟨hto.2.1, hto.2.2⟩).frame ⟨rfl, rfl, rfl, rfl⟩⟩
+
+theorem siIdInv_run {s : State} (h : SiInv s ∧ IdInv s) (ops : List Op) : SiInv (run cfg s ops) ∧ IdInv (run cfg s ops) := by
+  induction ops generalizing s with
+  | nil => exact h
+  | cons op ops ih => exact ih (siIdInv_step h op)
+
+/-- a state without delegations, unbonding delegations, redelegations and unbonding ids satisfies both -/
+theorem siIdInv_base (s : State) (h1 : s.startInfo = []) (h2 : s.ubds = []) (h3 : s.reds = []) (h4 : s.unbId = []) :
+    SiInv s ∧ IdInv s := by
+  refine ⟨fun a v _ => by rw [h1]; rfl, ⟨?_, ?_, ?_, ?_, ?_, ?_⟩⟩
+  · intro k es e hg; rw [h2, get_nil] at hg; cases hg
+  · intro k es e hg; rw [h3, get_nil] at hg; cases hg
+  · intro id r hg; rw [h4, get_nil] at hg; cases hg
+  · intro id r hg; rw [h4, get_nil] at hg; cases hg
+  · intro k es hg; rw [h2, get_nil] at hg; cases hg
+  · intro k es hg; rw [h3, get_nil] at hg; cases hg
+
+
 /-! ## never_reused -/
 
 /-- every operation keeps existing migration records -/
@@ -366,7 +981,7 @@ theorem records_kept (s : State) (op : Op) (a : Addr) (h : (get s.recs a).isSome
     simp only [step]
     apply keep
     intro s' hs
-    cases hb : sendCoins s.bal x y d n <;> simp [hb] at hs
+    cases hb : sendUnlocked s.bal (lockedOf s x d) x y d n <;> simp [hb] at hs
     subst hs; rfl
   | mint x d n => exact h
   | delegate d v amt rw => exact keep _ (fun s' hs => delegate_recs hs)
@@ -378,6 +993,7 @@ theorem records_kept (s : State) (op : Op) (a : Addr) (h : (get s.recs a).isSome
   | deposit x id amt => exact keep _ (fun s' hs => deposit_recs hs)
   | vote x id => exact keep _ (fun s' hs => vote_recs hs)
   | block dt => simp only [step]; rw [endBlock_recs]; exact h
+  | setPeriods dp vp => exact h
   | migrate f t sg =>
     simp only [step]
     cases hm : migrate cfg s f t sg with
@@ -391,12 +1007,12 @@ theorem records_kept (s : State) (op : Op) (a : Addr) (h : (get s.recs a).isSome
         by_cases h2 : a = f
         · subst h2; rw [get_put_eq]; rfl
         · rw [get_put_ne _ _ _ _ h2]
-          have hrec : (stakingExecute cfg (bankExecute s f t) f t).recs = s.recs := by
+          have hrec : (stakingExecute cfg (bankExecute cfg s f t) f t).recs = s.recs := by
             unfold stakingExecute
             refine (foldl_keep (fun s : State => s.recs) _ (fun s p => by
-              unfold moveRed; exact foldl_keep (fun s : State => s.recs) _ (by intros; rfl) _ _) _ _).trans ?_
+              unfold moveRed; exact (foldl_keep (fun s : State => s.recs) _ (by intros; rfl) _ _).trans (foldl_keep (fun s : State => s.recs) _ (by intros; rfl) _ _)) _ _).trans ?_
             refine (foldl_keep (fun s : State => s.recs) _ (fun s p => by
-              unfold moveUbd; exact foldl_keep (fun s : State => s.recs) _ (by intros; rfl) _ _) _ _).trans ?_
+              unfold moveUbd; exact (foldl_keep (fun s : State => s.recs) _ (by intros; rfl) _ _).trans (foldl_keep (fun s : State => s.recs) _ (by intros; rfl) _ _)) _ _).trans ?_
             exact foldl_keep (fun s : State => s.recs) _ (by intros; rfl) _ _
           rw [hrec]; exact h
 
@@ -446,6 +1062,120 @@ theorem later_behaviour_equal_records {s s' : State} {frm to : Addr} {sigOk : Bo
   · rw [h1]; simp [hne]
   · rw [h2]; simp [hne]
 
+/-! ## later_behaviour_equal as a simulation over every later history -/
+
+/-- **later_behaviour_equal** (simulation).  Let a migration of `frm` to `to` be accepted in `s`, giving `s'`, and let
+`s0` be `s` with the target's prior coins handed to the source (if the target held nothing, `s0` has the ledger of `s`).
+Then for EVERY later history without a further migration — sends, delegations, undelegations, redelegations, reward
+withdrawals, withdraw-address settings, proposals, deposits, votes, and blocks whose end blockers mature unbonding and
+redelegation entries, refund deposits and close proposals — the history run from `s0` and the same history with source
+and target swapped (`swOp`: the target acts where the source did) run from `s'` give the same answer at every step and
+end in states that are each other's image under the swap (`Sim`): balances of every denomination, delegations with
+their starting infos, unbonding and redelegation records, all four indexes, the unbonding-id index, both time queues
+(slice by slice, in order), withdraw addresses, proposals, deposits and votes.  In particular every matured entry and
+every reward the source would have been paid is paid to the target.
+
+Hypothesis `wf : MigWF s frm to`: the keepers' bookkeeping for the source's records is consistent in `s` (an index
+entry, a queue element, an unbonding id and a starting info exist exactly together with their record), the target is
+unknown to staking, neither address is a module pool, and no withdraw-address setting, deposit, vote or vesting schedule
+mentions either address. -/
+theorem later_behaviour_equal {s s' : State} {frm to : Addr} {sigOk : Bool}
+    (h : migrate cfg s frm to sigOk = .ok s') (wf : MigWF s frm to)
+    (later : List Op) (hl : ∀ op ∈ later, isMigrate op = false) :
+    Sim frm to (run cfg (bankExecute cfg s to frm) later) (run cfg s' (later.map (swOp frm to))) ∧
+    trace cfg (bankExecute cfg s to frm) later = trace cfg s' (later.map (swOp frm to)) := by
+  have hto := target_without_staking_records h
+  obtain ⟨hne, _, _, _, _, _, _, rfl⟩ := migrate_ok_inv h
+  have hc1 : cfg.rewriteDelIdx = true := by rw [cfg_from_code]
+  have hc2 : cfg.rewriteUnbId = true := by rw [cfg_from_code]
+  exact sim_run wf.modFix cfg later hl (sim_init cfg hc1 hc2 cfg_bankAll cfg_queue.1 cfg_queue.2 s hne hto wf)
+
+/-- **later_behaviour_equal** (what the target holds and can do): after any such later history the target holds, in
+every denomination, exactly what the source would hold (matured unbonding entries and rewards included), has exactly the
+delegations, unbonding delegations and redelegations the source would have, and the retired source address holds what
+the unused target address would. -/
+theorem later_behaviour_equal_holdings {s s' : State} {frm to : Addr} {sigOk : Bool}
+    (h : migrate cfg s frm to sigOk = .ok s') (wf : MigWF s frm to)
+    (later : List Op) (hl : ∀ op ∈ later, isMigrate op = false) :
+    let a := run cfg (bankExecute cfg s to frm) later
+    let b := run cfg s' (later.map (swOp frm to))
+    (∀ d, balOf b.bal to d = balOf a.bal frm d ∧ balOf b.bal frm d = balOf a.bal to d) ∧
+    (∀ v, get b.dels (to, v) = get a.dels (frm, v) ∧ get b.startInfo (v, to) = get a.startInfo (v, frm) ∧
+          get b.ubds (to, v) = get a.ubds (frm, v)) ∧
+    (∀ x y, get b.reds (to, x, y) = get a.reds (frm, x, y)) ∧ b.now = a.now := by
+  intro a b
+  have hs := (later_behaviour_equal h wf later hl).1
+  refine ⟨fun d => ⟨?_, ?_⟩, fun v => ⟨?_, ?_, ?_⟩, fun x y => ?_, hs.now⟩
+  · have := hs.bal frm d; rwa [sw_frm] at this
+  · have := hs.bal to d; rwa [sw_to] at this
+  · have := hs.dels.get_id (frm, v); simpa [swP, sw_frm] using this
+  · have := hs.startInfo.get_id (v, frm); simpa [swS, sw_frm] using this
+  · have := hs.ubds.get_id (frm, v); simpa [swP, sw_frm] using this
+  · have := hs.reds.get_id (frm, x, y); simpa [swP, sw_frm] using this
+
+
+/-! ## later_behaviour_equal for every reachable state -/
+
+/-- what remains to be assumed about the state in which the migration happens once the invariants are known: it is
+about things the staking keepers do not maintain — neither address is a module pool, no delegator-withdraw-address
+setting, deposit, vote or vesting schedule mentions the source or the target -/
+structure MigEnv (s : State) (frm to : Addr) : Prop where
+  modFix : ModFix frm to
+  wd_frm : get s.wdAddr frm = none
+  wd_to : get s.wdAddr to = none
+  wd_val : ∀ a w, get s.wdAddr a = some w → w ≠ frm ∧ w ≠ to
+  dep : ∀ p ∈ s.deposits, p.1.2 ≠ frm ∧ p.1.2 ≠ to
+  vote : ∀ p ∈ s.votes, p.2 ≠ frm ∧ p.2 ≠ to
+  vest_frm : get s.vest frm = none
+  vest_to : get s.vest to = none
+
+/-- the consistency hypothesis of `later_behaviour_equal` follows from the four invariants, the target being unknown to
+staking (which an accepted migration guarantees), and `MigEnv` -/
+theorem migWF_of_invariants {s : State} {frm to : Addr} (hx : IdxInv s) (hq : QInv s) (hs : SiInv s) (hi : IdInv s)
+    (hto : (∀ p ∈ s.dels, p.1.1 ≠ to) ∧ (∀ p ∈ s.ubds, p.1.1 ≠ to) ∧ (∀ p ∈ s.reds, p.1.1 ≠ to))
+    (env : MigEnv s frm to) : MigWF s frm to := by
+  have nd : ∀ v, get s.dels (to, v) = none := fun v => get_none_of_no_key _ _ (fun p hp e => hto.1 p hp (by rw [e]))
+  have nu : ∀ v, get s.ubds (to, v) = none := fun v => get_none_of_no_key _ _ (fun p hp e => hto.2.1 p hp (by rw [e]))
+  have nr : ∀ x, get s.reds (to, x) = none := fun x => get_none_of_no_key _ _ (fun p hp e => hto.2.2 p hp (by rw [e]))
+  have idwf := hi.idWF frm to ⟨hto.2.1, hto.2.2⟩
+  refine ⟨env.modFix, fun v => hx.del frm v, fun v e => ?_, fun v => hs frm v, fun v => hs to v (nd v),
+    fun v => hx.ubd frm v, fun v e => ?_, fun x => hx.rsrc frm x, fun x e => ?_, fun x => hx.rdst frm x, fun x e => ?_,
+    hq.u.nodup, fun p hp x hx' e => ?_, fun p hp x hx' e => ?_, hq.r.nodup, fun p hp x hx' e => ?_, fun p hp x hx' e => ?_,
+    idwf.id_ubd, idwf.id_red, idwf.id_of, idwf.id_to, env.wd_frm, env.wd_to, env.wd_val, env.dep, env.vote,
+    env.vest_frm, env.vest_to⟩
+  · obtain ⟨y, hy⟩ := (hx.del to v).mp e; rw [nd v] at hy; cases hy
+  · obtain ⟨y, hy⟩ := (hx.ubd to v).mp e; rw [nu v] at hy; cases hy
+  · obtain ⟨y, hy⟩ := (hx.rsrc to x).mp e; rw [nr x] at hy; cases hy
+  · obtain ⟨y, hy⟩ := (hx.rdst to x).mp e; rw [nr x] at hy; cases hy
+  · obtain ⟨es, hes, en, hen, het⟩ := hq.u.ann p hp x hx'
+    exact ⟨x.2, es, by rw [← e]; exact hes, en, hen, het⟩
+  · obtain ⟨es, hes, _⟩ := hq.u.ann p hp x hx'
+    have : get s.ubds (to, x.2) = some es := by rw [← e]; exact hes
+    rw [nu x.2] at this; cases this
+  · obtain ⟨es, hes, en, hen, het⟩ := hq.r.ann p hp x hx'
+    exact ⟨x.2, es, by rw [← e]; exact hes, en, hen, het⟩
+  · obtain ⟨es, hes, _⟩ := hq.r.ann p hp x hx'
+    have : get s.reds (to, x.2) = some es := by rw [← e]; exact hes
+    rw [nr x.2] at this; cases this
+
+/-- **later_behaviour_equal for every reachable state**: let `s0` be any state in which the four invariants hold (for
+instance one without staking records), `before` ANY history (migrations included), and let a migration of `frm` to `to`
+be accepted in the state `s` reached, under `MigEnv s frm to`.  Then for EVERY later history without a further migration
+the state after the migration simulates `s` (with the target's prior coins handed to the source) under the swap of
+source and target: same answers step by step, swapped states, every matured entry and every reward paid to the target
+(see `later_behaviour_equal`, `later_behaviour_equal_holdings`). -/
+theorem later_behaviour_equal_reachable {s0 : State} (hx : IdxInv s0) (hq : QInv s0) (hsi : SiInv s0 ∧ IdInv s0)
+    (before : List Op) {s' : State} {frm to : Addr} {sigOk : Bool}
+    (h : migrate cfg (run cfg s0 before) frm to sigOk = .ok s') (env : MigEnv (run cfg s0 before) frm to)
+    (later : List Op) (hl : ∀ op ∈ later, isMigrate op = false) :
+    Sim frm to (run cfg (bankExecute cfg (run cfg s0 before) to frm) later) (run cfg s' (later.map (swOp frm to))) ∧
+    trace cfg (bankExecute cfg (run cfg s0 before) to frm) later = trace cfg s' (later.map (swOp frm to)) := by
+  have h2 := siIdInv_run hsi before
+  exact later_behaviour_equal h
+    (migWF_of_invariants (idxInv_run hx before) (qInv_run hq before) h2.1 h2.2 (target_without_staking_records h) env)
+    later hl
+
+
 /-- involvement of `a` in proposal `id`: proposer, depositor, or (for proposals in the voting period) voter -/
 def involvedDeposit (s : State) (a : Addr) (id : Nat) : Prop :=
   (∃ pr, get s.props id = some pr ∧ pr.proposer = a) ∨ (get s.deposits (id, a)).isSome = true
@@ -464,11 +1194,22 @@ theorem refused_while_in_open_proposal (s : State) (frm to a : Addr) (sigOk : Bo
   intro s' h
   have h6 := (migrate_ok_inv h).2.2.2.2.2.2.1
   unfold govRefuses at h6
-  rw [cfg_from_code] at h6
+  have hscan : cfg.govScanAll = true := by rw [cfg_from_code]
+  rw [hscan] at h6
   simp only [Bool.true_or, Bool.or_eq_false_iff, List.any_eq_false] at h6
-  have hdep : ∀ id, involvedDeposit s a id → depositCb s frm to id = true := by
+  -- the refusals read from the two callbacks
+  have g1 : cfg.gProposerFrom = true := by rw [cfg_from_code]
+  have g2 : cfg.gProposerTo = true := by rw [cfg_from_code]
+  have g3 : cfg.gDepositFrom = true := by rw [cfg_from_code]
+  have g4 : cfg.gDepositTo = true := by rw [cfg_from_code]
+  have g5 : cfg.gVoteDeposit = true := by rw [cfg_from_code]
+  have g6 : cfg.gVoteFrom = true := by rw [cfg_from_code]
+  have g7 : cfg.gVoteTo = true := by rw [cfg_from_code]
+  have hdep : ∀ id, involvedDeposit s a id → depositCb cfg s frm to id = true := by
     intro id hi
     unfold depositCb
+    rw [g1, g2, g3, g4]
+    simp only [Bool.true_and]
     rcases hi with ⟨pr, hp, he⟩ | hd
     · rw [hp]; rcases ha with rfl | rfl <;> simp [he]
     · cases hp : get s.props id with
@@ -478,6 +1219,8 @@ theorem refused_while_in_open_proposal (s : State) (frm to a : Addr) (sigOk : Bo
   · exact h6.1 (t, id) (List.mem_filter.mpr ⟨hq, rfl⟩) (hdep id hi)
   · apply h6.2 (t, id) (List.mem_filter.mpr ⟨hq, rfl⟩)
     unfold voteCb
+    rw [g5, g6, g7]
+    simp only [Bool.true_and]
     rcases hi with hi | hv
     · simp [hdep id hi]
     · rcases ha with rfl | rfl <;> simp [hv]
@@ -514,5 +1257,161 @@ example : migrate cfg exState 1 11 false = .error .sig := rfl
 example : migrate cfg exState 1 2 true = .error .toStaking := rfl
 example : (2 = 2 ∨ 2 = 12) ∧ ((210, 1) ∈ exState.inactiveQ ∧ involvedDeposit exState 2 1) :=
   ⟨Or.inl rfl, by decide, Or.inl ⟨_, rfl, rfl⟩⟩
+
+
+/-! ### the theorems depend on the regenerated facts: witnesses for other readings of the code -/
+
+/-- a source whose unbonding delegation with validator 100 has two entries completing at different times -/
+def exTwo : State :=
+  { now := 10, vals := [100], hasKey := [1, 2],
+    dels := [((1, 100), 90)], delIdx := [(100, 1)], startInfo := [((100, 1), (3, 90))],
+    ubds := [((1, 100), [(305, 10, 1), (400, 5, 2)])], ubdIdx := [(100, 1)],
+    ubdQ := [(305, [(1, 100)]), (400, [(1, 100)])], unbId := [(1, (1, 100, none)), (2, (1, 100, none))] }
+
+/-- with the code as it is, both slices are rewritten … -/
+example : get (stakingExecute cfg exTwo 1 11).ubdQ 305 = some [(11, 100)] ∧
+    get (stakingExecute cfg exTwo 1 11).ubdQ 400 = some [(11, 100)] := by decide
+
+/-- … were the entry loop left after the first entry of a record (`qEveryEntry = false`: a `continue`/`break`, or a
+rewrite flag shared by the entries), the second entry's queue element would keep naming the source, and the end blocker
+would never complete it … -/
+example : get (stakingExecute { cfg with qEveryEntry := false } exTwo 1 11).ubdQ 400 = some [(1, 100)] := by decide
+
+/-- … were the already-migrated guards the role-specific direction flags (`recKeyFrom = GetMigratedDirectionFrom`,
+`recKeyTo = GetMigratedDirectionTo`), the source 1 of an accepted migration 1 → 11 could be the target of a later one … -/
+example : ∃ s1 s2,
+    migrate { cfg with recKeyFrom := "GetMigratedDirectionFrom", recKeyTo := "GetMigratedDirectionTo" } exState 1 11 true = .ok s1 ∧
+    migrate { cfg with recKeyFrom := "GetMigratedDirectionFrom", recKeyTo := "GetMigratedDirectionTo" }
+      { s1 with props := [], deposits := [], inactiveQ := [] } 2 1 true = .ok s2 ∧
+    migrate cfg { s1 with props := [], deposits := [], inactiveQ := [] } 2 1 true = .error .migrated :=
+  ⟨_, _, rfl, rfl, rfl⟩
+
+/-- … and were the target's deposit not looked at (`gDepositTo = false`), a target that is depositor of a proposal in its
+deposit period would be accepted -/
+example : migrate cfg { exState with deposits := [((1, 11), 10)], props := [(1, { proposer := 3, status := 0, depEnd := 210, voteEnd := 0, total := 10 })] } 1 11 true = .error .gov ∧
+    ∃ s', migrate { cfg with gDepositTo := false }
+      { exState with deposits := [((1, 11), 10)], props := [(1, { proposer := 3, status := 0, depEnd := 210, voteEnd := 0, total := 10 })] } 1 11 true = .ok s' :=
+  ⟨rfl, _, rfl⟩
+
+
+/-! ### non-vacuity of later_behaviour_equal_reachable -/
+
+/-- a state without any staking record: one validator, a funded user with key, funded pools -/
+def exBase : State :=
+  { vals := [100], hasKey := [1], valTok := [(100, 1000)], period := [(100, 2)],
+    bal := [((1, 0), 500), ((1, 1), 7), ((bondedPool, 0), 1000), ((notBondedPool, 0), 5)] }
+
+/-- delegate, undelegate part of it, let a block pass -/
+def exBefore : List Op := [.delegate 1 100 90 0, .undelegate 1 100 10 0, .block 5]
+
+/-- the four invariants hold in `exBase` (no staking records), the migration of 1 to 11 after `exBefore` is accepted, and
+`MigEnv` holds in the state reached: all hypotheses of `later_behaviour_equal_reachable` are satisfiable together; 300
+seconds later the unbonding entry has matured and is paid to the target -/
+example : IdxInv exBase ∧ QInv exBase ∧ (SiInv exBase ∧ IdInv exBase) ∧
+    (∃ s', migrate cfg (run cfg exBase exBefore) 1 11 true = .ok s' ∧
+      balOf (run cfg s' [.block 300, .block 1]).bal 11 0 = balOf s'.bal 11 0 + 10) ∧
+    MigEnv (run cfg exBase exBefore) 1 11 := by
+  refine ⟨idxInv_base exBase rfl rfl rfl rfl rfl rfl rfl, qInv_base exBase rfl rfl, siIdInv_base exBase rfl rfl rfl rfl,
+    ⟨_, rfl, by decide⟩, ⟨⟨by decide, by decide, by decide⟩, rfl, rfl, fun a w h => ?_, fun p hp => ?_, fun p hp => ?_, rfl, rfl⟩⟩
+  · have : (run cfg exBase exBefore).wdAddr = [] := rfl
+    rw [this, get_nil] at h; cases h
+  · have : (run cfg exBase exBefore).deposits = [] := rfl
+    rw [this] at hp; cases hp
+  · have : (run cfg exBase exBefore).votes = [] := rfl
+    rw [this] at hp; cases hp
+
+/-! ### non-vacuity of later_behaviour_equal -/
+
+/-- the example state with a funded not-bonded pool -/
+def exLater : State := { exState with bal := ((notBondedPool, 0), 40) :: exState.bal }
+
+/-- the consistency hypothesis of `later_behaviour_equal` holds in the example state for the pair (1, 11) -/
+theorem exLater_wf : MigWF exLater 1 11 := by
+  refine ⟨⟨by decide, by decide, by decide⟩, fun v => ⟨fun h => ?_, fun ⟨sh, h⟩ => ?_⟩, fun v h => ?_, fun v h => ?_, fun v => ?_,
+    fun v => ⟨fun h => ?_, fun ⟨es, h⟩ => ?_⟩, fun v h => ?_, fun x => ⟨fun h => ?_, fun ⟨es, h⟩ => ?_⟩, fun x h => ?_,
+    fun x => ⟨fun h => ?_, fun ⟨es, h⟩ => ?_⟩, fun x h => ?_, by decide, fun p hp x hx e => ?_, fun p hp x hx => ?_,
+    by decide, fun p hp x hx e => ?_, fun p hp x hx => ?_, fun v es e hg he => ?_, fun a b es e hg he => ?_,
+    fun id r hg e => ?_, fun id r hg => ?_, rfl, rfl, fun a w h => ?_, fun p hp => ?_, fun p hp => ?_, rfl, rfl⟩
+  · have : v = 100 ∨ v = 102 := by simpa [exLater, exState] using h
+    rcases this with rfl | rfl <;> exact ⟨_, rfl⟩
+  · have := get_some_mem _ _ _ h
+    simp [exLater, exState] at this ⊢
+    rcases this with ⟨rfl, _⟩ | ⟨rfl, _⟩ <;> simp
+  · simp [exLater, exState] at h
+  · apply get_none_of_no_key
+    intro p hp e
+    simp only [exLater, exState, List.mem_cons, List.not_mem_nil, or_false] at hp
+    rcases hp with rfl | rfl | rfl <;> cases e <;> exact absurd h (by decide)
+  · apply get_none_of_no_key
+    intro p hp e
+    simp only [exLater, exState, List.mem_cons, List.not_mem_nil, or_false] at hp
+    rcases hp with rfl | rfl | rfl <;> cases e
+  · have : v = 100 := by simpa [exLater, exState] using h
+    subst this; exact ⟨_, rfl⟩
+  · have := get_some_mem _ _ _ h
+    simp [exLater, exState] at this ⊢
+    exact this.1
+  · simp [exLater, exState] at h
+  · obtain ⟨a, b⟩ := x
+    have : a = 101 ∧ b = 102 := by simpa [exLater, exState] using h
+    obtain ⟨rfl, rfl⟩ := this; exact ⟨_, rfl⟩
+  · obtain ⟨a, b⟩ := x
+    have := get_some_mem _ _ _ h
+    simp [exLater, exState] at this ⊢
+    exact ⟨this.1.1, this.1.2⟩
+  · simp [exLater, exState] at h
+  · obtain ⟨a, b⟩ := x
+    have : b = 102 ∧ a = 101 := by simpa [exLater, exState] using h
+    obtain ⟨rfl, rfl⟩ := this; exact ⟨_, rfl⟩
+  · obtain ⟨a, b⟩ := x
+    have := get_some_mem _ _ _ h
+    simp [exLater, exState] at this ⊢
+    exact ⟨this.1.2, this.1.1⟩
+  · simp [exLater, exState] at h
+  · simp only [exLater, exState, List.mem_cons, List.not_mem_nil, or_false] at hp
+    subst hp
+    exact ⟨100, _, rfl, _, List.mem_cons_self .., rfl⟩
+  · simp only [exLater, exState, List.mem_cons, List.not_mem_nil, or_false] at hp
+    subst hp
+    simp only [List.mem_cons, List.not_mem_nil, or_false] at hx
+    rcases hx with rfl | rfl <;> decide
+  · simp only [exLater, exState, List.mem_cons, List.not_mem_nil, or_false] at hp
+    subst hp
+    exact ⟨(101, 102), _, rfl, _, List.mem_cons_self .., rfl⟩
+  · simp only [exLater, exState, List.mem_cons, List.not_mem_nil, or_false] at hp
+    subst hp
+    simp only [List.mem_cons, List.not_mem_nil, or_false] at hx
+    subst hx; decide
+  · have := get_some_mem _ _ _ hg
+    simp [exLater, exState] at this
+    obtain ⟨rfl, rfl⟩ := this
+    simp only [List.mem_cons, List.not_mem_nil, or_false] at he
+    subst he; rfl
+  · have := get_some_mem _ _ _ hg
+    simp [exLater, exState] at this
+    obtain ⟨⟨rfl, rfl⟩, rfl⟩ := this
+    simp only [List.mem_cons, List.not_mem_nil, or_false] at he
+    subst he; rfl
+  · have := get_some_mem _ _ _ hg
+    simp only [exLater, exState, List.mem_cons, List.not_mem_nil, or_false] at this
+    rcases this with h1 | h1 | h1 <;> cases h1
+    · exact Or.inl ⟨100, _, _, rfl, List.mem_cons_self .., rfl⟩
+    · cases e
+    · exact Or.inr ⟨101, 102, _, _, rfl, List.mem_cons_self .., rfl⟩
+  · have := get_some_mem _ _ _ hg
+    simp only [exLater, exState, List.mem_cons, List.not_mem_nil, or_false] at this
+    rcases this with h1 | h1 | h1 <;> cases h1 <;> decide
+  · exact absurd h (by simp [exLater, exState, get_nil])
+  · simp only [exLater, exState, List.mem_cons, List.not_mem_nil, or_false] at hp
+    subst hp; decide
+  · simp [exLater, exState] at hp
+/-- the migration of 1 to 11 is accepted in `exLater`; two blocks later (time 311 > 305) the unbonding entry of the
+former source has matured and its 10 coins are paid to the target 11, whose unbonding record is gone; the retired
+source 1 holds nothing -/
+example : ∃ s', migrate cfg exLater 1 11 true = .ok s' ∧
+    balOf (run cfg s' [.block 300, .block 1]).bal 11 0 = balOf s'.bal 11 0 + 10 ∧
+    get s'.ubds (11, 100) = some [(305, 10, 1)] ∧ get (run cfg s' [.block 300, .block 1]).ubds (11, 100) = none ∧
+    balOf (run cfg s' [.block 300, .block 1]).bal 1 0 = 0 :=
+  ⟨_, rfl, by decide, by decide, by decide, by decide⟩
 
 end FxVerif.Props.C14
